@@ -40,7 +40,10 @@ def is_isotope_symbol(el: str) -> bool:
 class Env:
     """Constant provider.  sym=True: fresh named symbols; sym=False: the library's real values."""
 
-    def __init__(self, sym: bool):
+    def __init__(self, sym: bool, real_parts: Sequence[str] = ()):
+        """real_parts: subset of {'aa','fa','fi','particles','el','um','gl'} kept at their real values even if sym."""
+        _capture_real()
+        self.real_parts = set(real_parts)
         import peptacular.constants as K
         import peptacular.chem.chem_constants as CC
         from peptacular.mods.mod_db_setup import UNIMOD_DB, MONOSACCHARIDES_DB
@@ -48,10 +51,17 @@ class Env:
         self.K, self.CC = K, CC
         self.UNIMOD_DB, self.MONO_DB = UNIMOD_DB, MONOSACCHARIDES_DB
         self._used: Dict[str, Any] = {}
+        self.symbols: Dict[str, Any] = {}
 
     def _v(self, name: str, real: float):
         if name not in self._used:
-            self._used[name] = SR.real(name) if self.sym else real
+            part = name.split("_")[0]
+            part = "particles" if part in ("proton", "neutron", "electron") else part
+            if self.sym and part not in self.real_parts:
+                self._used[name] = SR.real(name)
+                self.symbols[name] = self._used[name]
+            else:
+                self._used[name] = real
         return self._used[name]
 
     def aa(self, letter: str, mono: bool):
